@@ -343,11 +343,27 @@ def run(ck):
                     hi_d = v
                 if cst == 0xDC00:
                     lo_d = v
+            if nd['k'] == 'BinaryOperator' and nd.get('op') == '&' and const_value(ue, ue.kids(j)[1]) == 0x3FF:
+                # mask form: (hi & 0x3FF) << 10 and (lo & 0x3FF); the unit under the shift is the high one
+                v = declref(ue, ue.kids(j)[0])
+                under_shift = any(ue.nodes[a]['k'] == 'BinaryOperator' and ue.nodes[a].get('op') == '<<' and ue.is_in(j, ue.kids(a)[0])
+                                  for a in ue.ancestors(j) if ue.is_in(a, comb[0]))
+                if under_shift:
+                    hi_d = v
+                else:
+                    lo_d = v
             if nd['k'] == 'BinaryOperator' and nd.get('op') == '<<' and const_value(ue, ue.kids(j)[1]) == 10:
-                shift_ok = any(ue.nodes[x]['k'] == 'IntegerLiteral' and int(ue.nodes[x]['v']) == 0xD800 for x in ue.walk(ue.kids(j)[0]))
+                shift_ok = any(ue.nodes[x]['k'] == 'IntegerLiteral' and int(ue.nodes[x]['v']) in (0xD800, 0x3FF) for x in ue.walk(ue.kids(j)[0]))
             if nd['k'] == 'BinaryOperator' and nd.get('op') == '*' and 0x400 in (const_value(ue, ue.kids(j)[0]), const_value(ue, ue.kids(j)[1])):
                 shift_ok = True
-    ck.ob('C38.surrogate', 'C38.surrogate/combine', bool(comb) and hi_d is not None and lo_d is not None and hi_d != lo_d and shift_ok,
+    plus_ok = False
+    if comb:
+        # 0x10000 is joined by '+' (an OR would lose the carry into bit 16 when (hi - 0xD800) << 10 reaches it)
+        for j in ue.walk(comb[0]):
+            nd = ue.nodes[j]
+            if nd['k'] == 'BinaryOperator' and nd.get('op') == '+' and any(const_value(ue, x) == 0x10000 for x in ue.kids(j)):
+                plus_ok = True
+    ck.ob('C38.surrogate', 'C38.surrogate/combine', bool(comb) and hi_d is not None and lo_d is not None and hi_d != lo_d and shift_ok and plus_ok,
           ue.loc(comb[0]) if comb else ue.loc(),
           'a surrogate pair is combined as 0x10000 + ((hi - 0xD800) << 10) + (lo - 0xDC00) over two different code units')
 
